@@ -13,7 +13,7 @@ RULE = ('Generated: collections of 0..40 signatures (empty, singletons, exact du
         'signed views) held in SignatureArray, SignatureArray with int32 bounds, SignatureList, plain list, or an HDF5 file; 0..8 queries '
         'in an independently drawn dtype; function in {jaccarddist_array, jaccarddist_matrix, jaccarddist_pairwise square/flat}; '
         'chunksize in {None,1..n+1,1000}; ref_indices/indices in {None, permutation, selection with repeats, empty}; out in {None, fresh '
-        'NaN-filled buffer, strided view of a larger buffer}; 1..16 OpenMP threads; every call repeated (3x quick, 20x thorough) to sample '
+        'NaN-filled buffer, strided view of a larger buffer}; 1..16 OpenMP threads (1 case in 25: the same case in a fresh interpreter started with OMP_THREAD_LIMIT / OMP_DYNAMIC / OMP_SCHEDULE / OMP_NUM_THREADS / OMP_PROC_BIND set); every call repeated (3x quick, 20x thorough) to sample '
         'the dynamic schedule. Oracle: each cell bit-equals the exact rational distance rounded once to binary32 (sets <= 400 elements) '
         'and gambit.metric.jaccarddist of the pair; caller order; returned object is the supplied buffer; cells outside a strided view '
         'untouched; pairwise symmetric, zero diagonal, condensed order = squareform. Non-trivial: >= 2 references and >= 2 distinct '
